@@ -326,6 +326,9 @@ static OptC genOpt(int nvar)
   o.lock_rot2d = G::pct(20);
   o.lock_no3d = G::pct(15);
   o.lock_iso2d = G::pct(15);
+  // known finding C17-samerot-rotation-lost (replay file only, null dereference): when every structure able to carry the
+  // shared rotation is discarded, the rotation parameter keeps the rank of a deleted structure
+  if (o.lock_samerot && !o.noreduce && !enabled("samerot-reduce")) o.noreduce = 1;
   o.keep_intstr = G::pct(10);
   o.goulard = nvar > 1 ? !G::pct(3) : !G::pct(25);
   o.intrinsic = enabled("intrinsic") ? G::pct(8) : 0; // known finding C17-intrinsic-crash (unallocated array)
@@ -677,6 +680,11 @@ static bool checkSills(const Model& m, const std::string& site0, Ctx& ctx, bool 
 {
   std::string site = site0 + (constSill ? ":constant-sill" : "");
   int nvar = m.getVariableNumber();
+  // scale of the model: a structure whose sill matrix is null up to 1e-10 of it is not asked for more than that
+  double scaleAll = 0;
+  for (int ic = 0; ic < m.getCovaNumber(); ic++)
+    for (int i = 0; i < nvar; i++)
+      if (std::isfinite(m.getSill(ic, i, i))) scaleAll = std::max(scaleAll, std::fabs(m.getSill(ic, i, i)));
   for (int ic = 0; ic < m.getCovaNumber(); ic++)
   {
     std::vector<long double> a((size_t)(nvar * nvar));
@@ -702,7 +710,7 @@ static bool checkSills(const Model& m, const std::string& site0, Ctx& ctx, bool 
           return false;
         }
     std::vector<double> ev = jacobiEig(nvar, a);
-    if (ev[0] < -1e-8 * std::max(tr, amax) || (tr < 0))
+    if (ev[0] < -1e-8 * std::max(std::max(tr, amax), 1e-10 * scaleAll) || (tr < -1e-18 * scaleAll))
     {
       std::string s;
       for (int i = 0; i < nvar; i++)
